@@ -1,10 +1,17 @@
 import TongoProofs.Lemmas.WalletMsg
 import TongoProofs.Lemmas.HighloadDict
 import TongoProofs.Lemmas.WalletExt
+import TongoProofs.Lemmas.WalletInt
+import TongoProofs.Lemmas.SigIdeal
+import TongoProofs.Lemmas.HashTree
+import TongoProofs.Lemmas.CellOrdSpec
+import TongoGen.WalletInts
+import TongoProofs.Lemmas.GenTiesWallet
 /-! Property C14 — wallet-built messages carry the requested transfers under a valid signature.
 
 Model: `TongoModel/WalletMsg.lean` (bodies per version, signature placement, external-message envelope, verifiers,
-decoders), `TongoModel/WalletSend.lean` (the message-count guard of RawSendV2). `H`, `sign`, `verify` are parameters;
+decoders), `TongoModel/WalletSend.lean` (the message-count guard of RawSendV2), `TongoModel/WalletInt.lean` (the
+outgoing internal messages of `wallet.Message` / `SimpleTransfer` / `ContractDeploy`, with their state init). `H`, `sign`, `verify` are parameters;
 `SigCorrect` is an explicit premise; "verifies against no other key / stops verifying when a bit changes" reduce, by
 `signed_digest_is_body` and `body_repr_injective`, to unforgeability of the signature scheme and collision-freedom of
 the hash on the two representations — named idealisations, exercised with real Ed25519 on every run.
@@ -93,6 +100,43 @@ theorem signed_digest_is_body (sign : List UInt8 → List UInt8 → List UInt8) 
   · rw [← hb]
     exact splitSignature_attached H (sigFirst v) _ (hsl _ _) _ hty hmask hdep
 
+/-- The digest of the model (`Cell.hashO`, the level-0 formula) IS the hash of the shared line-by-line model of
+boc/immutable_cell.go (`Cell.reprHash`, property C02) on the signed cell whenever the outgoing messages are trees of
+level-0, non-pruned cells (ordinary cells and library cells): then the whole signed layout is such a tree. For outgoing
+messages containing pruned branches or cells of a higher level the two formulas differ and the theorems of this file,
+stated with `hashO`, do not describe Go's `Cell.Hash` (outside the model; listed in `assumptions`). -/
+theorem signed_digest_is_cell_hash (v : Version) (hf : v.family = .v3 ∨ v.family = .v4 ∨ v.family = .v5r1 ∨ v.family = .v5beta)
+    (ids : BodyIds) (op seqno vu : Nat) (msgs : List RawMsg) (hl : ∀ m ∈ msgs, m.msg.lvl0 = true)
+    (hd : (signedLayout v ids op seqno vu msgs).depthO ≤ maxDepth) :
+    (signedLayout v ids op seqno vu msgs).lvl0 = true ∧
+    Cell.reprHash H (signedLayout v ids op seqno vu msgs) = .ok ((signedLayout v ids op seqno vu msgs).hashO H) := by
+  have hcellsG : ∀ l : List RawMsg, (∀ m ∈ l, m.msg.lvl0 = true) → Cell.lvl0List (msgCells l) = true := by
+    intro l
+    induction l with
+    | nil => intro _; rfl
+    | cons m ms ih =>
+      intro hl
+      simp only [msgCells, List.map_cons, Cell.lvl0List, Bool.and_eq_true]
+      exact ⟨hl m (by simp), ih (fun x hx => hl x (by simp [hx]))⟩
+  have hactG : ∀ l : List RawMsg, (∀ m ∈ l, m.msg.lvl0 = true) → (actionsCell l).lvl0 = true := by
+    intro l
+    induction l with
+    | nil => intro _; rfl
+    | cons m ms ih =>
+      intro hl
+      simp only [actionsCell, Cell.ordinary, Cell.lvl0, Cell.lvl0List, Bool.and_eq_true]
+      exact ⟨⟨by decide, by decide⟩, ih (fun x hx => hl x (by simp [hx])), hl m (by simp), trivial⟩
+  have hcells := hcellsG msgs hl
+  have hact := hactG msgs hl
+  have h0 : (signedLayout v ids op seqno vu msgs).lvl0 = true := by
+    unfold signedLayout
+    rcases hf with h | h | h | h <;> simp only [h, Cell.ordinary, Cell.lvl0, Cell.lvl0List, Bool.and_eq_true]
+    · exact ⟨⟨by decide, by decide⟩, hcells⟩
+    · exact ⟨⟨by decide, by decide⟩, hcells⟩
+    · exact ⟨⟨by decide, by decide⟩, hact, trivial⟩
+    · exact ⟨⟨by decide, by decide⟩, hact, trivial⟩
+  exact ⟨h0, Cell.reprHash_lvl0 H _ h0 hd⟩
+
 /-- Two ordinary cells (≤ 1023 bits, ≤ 4 refs) with the same representation have the same bits, the same number of
 refs and refs with the same hashes: changing any bit of the signed cell, or any bit of any cell below it (which
 changes that ref's hash unless `H` collides), changes the representation. -/
@@ -152,6 +196,183 @@ theorem verify_own_key (sign : List UInt8 → List UInt8 → List UInt8) (verify
   rw [hver, hdec]
   simp only [bind, Outcome.bind, hbo, hsplit]
   simp [edVerify, hpk, hsc sk]
+
+/-! ### no other key, no changed bit — under the ideal signature scheme and a collision-free hash
+
+The negative clauses of the property. `Sig.Ideal sign verify pub` (`TongoProofs/Lemmas/SigIdeal.lean`: `SigCorrect`,
+`SigUnforgeable` — whatever verifies was produced by `sign` under a secret key of that public key —, `SigBinds` — a
+signature determines signer and digest) and `CollisionFree H` on the representations of the cells of the two body trees
+are LOCAL hypotheses, the named idealisations of DESIGN §5.3. The accept-all verifier does not satisfy them
+(`Sig.accept_all_violates`), a toy scheme does (`Sig.toy_ideal`, instantiated at the end of this file). -/
+
+/-- The shape of every built message (v3, v4, v5r1, v5 beta): the envelope around the signed layout with the signature
+of its hash attached where the version puts it (in front for v3/v4, in the LAST 512 bits for v5). -/
+theorem built_message_is_attached (sign : List UInt8 → List UInt8 → List UInt8) (hsl : ∀ sk m, (sign sk m).length = 64) (sk : List UInt8)
+    (v : Version) (hf : v.family = .v3 ∨ v.family = .v4 ∨ v.family = .v5r1 ∨ v.family = .v5beta)
+    (ids : BodyIds) (op seqno vu rnd : Nat) (msgs : List RawMsg) (hn : (v.family = .v3 ∨ v.family = .v4) → msgs.length ≤ 4)
+    (self : Address) (hh : self.hash.length = 32) (init : Option Cell) (body msg : Cell)
+    (hbody : createSignedBody H sign sk v ids op seqno vu rnd msgs = .ok body) (hmsg : extMessage self body init = .ok msg)
+    (hdepL : (signedLayout v ids op seqno vu msgs).depthO ≤ maxDepth) :
+    msg = envelope self (attached v (sign sk ((signedLayout v ids op seqno vu msgs).hashO H)) (signedLayout v ids op seqno vu msgs)) init
+    ∧ (signedLayout v ids op seqno vu msgs).ty = 0 ∧ (signedLayout v ids op seqno vu msgs).mask = 0 := by
+  obtain ⟨hb, _, _⟩ := signed_digest_is_body H sign hsl sk v hf ids op seqno vu rnd msgs hn hdepL body hbody
+  obtain ⟨_, _, hty, hmask⟩ := signedLayout_size v ids op seqno vu msgs hn
+  rw [extMessage_ok self hh] at hmsg
+  simp only [Outcome.ok.injEq] at hmsg
+  exact ⟨by rw [← hmsg, hb], hty, hmask⟩
+
+/-- … and of every built highload message: the signed cell is `sub-wallet ‖ query id ‖ dictionary`. -/
+theorem built_message_is_attached_highload (sign : List UInt8 → List UInt8 → List UInt8) (hsl : ∀ sk m, (sign sk m).length = 64)
+    (sk : List UInt8) (ids : BodyIds) (op seqno vu rnd : Nat) (msgs : List RawMsg) (hn : msgs.length ≤ 254) (hm : ∀ m ∈ msgs, m.mode < 256)
+    (self : Address) (hh : self.hash.length = 32) (init : Option Cell) (body msg : Cell)
+    (hbody : createSignedBody H sign sk .highloadV2R2 ids op seqno vu rnd msgs = .ok body) (hmsg : extMessage self body init = .ok msg) :
+    ∃ layout, signedCell .highloadV2R2 ids op seqno vu rnd msgs = .ok layout ∧ layout.ty = 0 ∧ layout.mask = 0 ∧
+      layout.depthO ≤ maxDepth ∧ msg = envelope self (attached .highloadV2R2 (sign sk (layout.hashO H)) layout) init := by
+  obtain ⟨layout, hl, hbits, hrefs, hty, hmask, _⟩ := fits_in_cell_highload ids op seqno vu rnd msgs hn hm
+  unfold createSignedBody at hbody
+  rw [hl] at hbody
+  simp only [bind, Outcome.bind] at hbody
+  cases hdig : layout.hashO? H with
+  | err e => simp [hdig] at hbody
+  | panic e => simp [hdig] at hbody
+  | ok digest =>
+    have hdc : layout.depthO ≤ maxDepth := by
+      unfold Cell.hashO? at hdig
+      split at hdig
+      · assumption
+      · cases hdig
+    have hdg : digest = layout.hashO H := by
+      unfold Cell.hashO? at hdig
+      simp only [hdc, ↓reduceIte, Outcome.ok.injEq] at hdig
+      exact hdig.symm
+    simp only [hdig] at hbody
+    rw [attachSignature_ok .highloadV2R2 _ (hsl _ _) layout (by rw [hbits]; simp) (by omega)] at hbody
+    simp only [Outcome.ok.injEq] at hbody
+    rw [extMessage_ok self hh] at hmsg
+    simp only [Outcome.ok.injEq] at hmsg
+    subst hmsg hbody hdg
+    exact ⟨layout, hl, hty, hmask, hdc, rfl⟩
+
+/-- What `VerifySignature` accepts was signed: if the envelope around ANY body — any 64-byte string `sig` attached to
+any ordinary cell `c`, which is what every ordinary body cell with at least 512 bits is (`body_is_attached`) — verifies
+against a 32-byte key `pk`, then `pk` is the public key of a secret key that produced `sig` as the signature of the hash
+of `c`. For every version, including v5 (signature in the last 512 bits) and highload. -/
+theorem verified_was_signed (sign : List UInt8 → List UInt8 → List UInt8) (verify : List UInt8 → List UInt8 → List UInt8 → Bool)
+    (pub : List UInt8 → List UInt8) (hu : Sig.SigUnforgeable sign verify pub)
+    (v : Version) (hv : v.family ≠ .v1v2) (sig : List UInt8) (hs : sig.length = 64)
+    (c : Cell) (hty : c.ty = 0) (hmask : c.mask = 0) (hdc : c.depthO ≤ maxDepth)
+    (self : Address) (hh : self.hash.length = 32) (code data : Cell) (withInit : Bool)
+    (hdep : (envelope self (attached v sig c) (if withInit then some (stateInitCell code data) else none)).depthO ≤ maxDepth)
+    (pk : List UInt8) (hpk : pk.length = 32)
+    (hok : verifySignature H verify v (envelope self (attached v sig c) (if withInit then some (stateInitCell code data) else none)) pk = .ok true) :
+    ∃ sk, pk = pub sk ∧ sig = sign sk (c.hashO H) := by
+  rw [verifySignature_envelope H verify v hv sig hs c hty hmask hdc self hh code data withInit hdep pk hpk] at hok
+  simp only [Outcome.ok.injEq] at hok
+  exact hu pk _ sig hok
+
+/-- **No other key.** The envelope around a cell `c` signed with `sk` (any version but v1/v2; this is the shape of
+every built message, `built_message_is_attached(_highload)`) is REJECTED (`ErrBadSignature`) by `VerifySignature` for
+every 32-byte key other than `pub sk`. -/
+theorem verify_rejects_other_key_attached (hlen : ∀ x, (H x).length = 32) (sign : List UInt8 → List UInt8 → List UInt8)
+    (verify : List UInt8 → List UInt8 → List UInt8 → Bool) (pub : List UInt8 → List UInt8) (I : Sig.Ideal sign verify pub)
+    (hsl : ∀ sk m, (sign sk m).length = 64) (sk : List UInt8)
+    (v : Version) (hv : v.family ≠ .v1v2) (c : Cell) (hty : c.ty = 0) (hmask : c.mask = 0) (hdc : c.depthO ≤ maxDepth)
+    (self : Address) (hh : self.hash.length = 32) (code data : Cell) (withInit : Bool)
+    (hdep : (envelope self (attached v (sign sk (c.hashO H)) c) (if withInit then some (stateInitCell code data) else none)).depthO ≤ maxDepth)
+    (pk' : List UInt8) (hpk' : pk'.length = 32) (hne : pk' ≠ pub sk) :
+    verifySignature H verify v
+      (envelope self (attached v (sign sk (c.hashO H)) c) (if withInit then some (stateInitCell code data) else none)) pk' = .ok false := by
+  rw [verifySignature_envelope H verify v hv _ (hsl _ _) c hty hmask hdc self hh code data withInit hdep pk' hpk']
+  cases hvf : verify pk' (c.hashO H) (sign sk (c.hashO H)) with
+  | false => rfl
+  | true =>
+    have hd : (c.hashO H).length = 32 := by rw [Cell.hashO_eq_H_reprO]; exact hlen _
+    exact absurd (I.verify_sound sk pk' _ _ hd hd hvf).1 hne
+
+/-- **No other key**, on the message the wallet builds (v3, v4, v5r1, v5 beta; any ids, seqno, expiry, messages within
+the limit, with or without state init): `VerifySignature` answers `ErrBadSignature` for every other 32-byte key. -/
+theorem verify_rejects_other_key (hlen : ∀ x, (H x).length = 32) (sign : List UInt8 → List UInt8 → List UInt8)
+    (verify : List UInt8 → List UInt8 → List UInt8 → Bool) (pub : List UInt8 → List UInt8) (I : Sig.Ideal sign verify pub)
+    (hsl : ∀ sk m, (sign sk m).length = 64) (sk : List UInt8)
+    (v : Version) (hf : v.family = .v3 ∨ v.family = .v4 ∨ v.family = .v5r1 ∨ v.family = .v5beta)
+    (ids : BodyIds) (op seqno vu rnd : Nat) (msgs : List RawMsg) (hn : (v.family = .v3 ∨ v.family = .v4) → msgs.length ≤ 4)
+    (self : Address) (hh : self.hash.length = 32) (code data : Cell) (withInit : Bool) (body msg : Cell)
+    (hbody : createSignedBody H sign sk v ids op seqno vu rnd msgs = .ok body)
+    (hmsg : extMessage self body (if withInit then some (stateInitCell code data) else none) = .ok msg)
+    (hdep : msg.depthO ≤ maxDepth) (hdepL : (signedLayout v ids op seqno vu msgs).depthO ≤ maxDepth)
+    (pk' : List UInt8) (hpk' : pk'.length = 32) (hne : pk' ≠ pub sk) :
+    verifySignature H verify v msg pk' = .ok false := by
+  obtain ⟨hm, hty, hmask⟩ := built_message_is_attached H sign hsl sk v hf ids op seqno vu rnd msgs hn self hh _ body msg hbody hmsg hdepL
+  have hv : v.family ≠ .v1v2 := by rcases hf with h | h | h | h <;> simp [h]
+  subst hm
+  exact verify_rejects_other_key_attached H hlen sign verify pub I hsl sk v hv _ hty hmask hdepL self hh code data withInit hdep pk' hpk' hne
+
+/-- **No other key**, highload wallet. -/
+theorem verify_rejects_other_key_highload (hlen : ∀ x, (H x).length = 32) (sign : List UInt8 → List UInt8 → List UInt8)
+    (verify : List UInt8 → List UInt8 → List UInt8 → Bool) (pub : List UInt8 → List UInt8) (I : Sig.Ideal sign verify pub)
+    (hsl : ∀ sk m, (sign sk m).length = 64) (sk : List UInt8) (ids : BodyIds) (op seqno vu rnd : Nat) (msgs : List RawMsg)
+    (hn : msgs.length ≤ 254) (hm : ∀ m ∈ msgs, m.mode < 256)
+    (self : Address) (hh : self.hash.length = 32) (code data : Cell) (withInit : Bool) (body msg : Cell)
+    (hbody : createSignedBody H sign sk .highloadV2R2 ids op seqno vu rnd msgs = .ok body)
+    (hmsg : extMessage self body (if withInit then some (stateInitCell code data) else none) = .ok msg)
+    (hdep : msg.depthO ≤ maxDepth) (pk' : List UInt8) (hpk' : pk'.length = 32) (hne : pk' ≠ pub sk) :
+    verifySignature H verify .highloadV2R2 msg pk' = .ok false := by
+  obtain ⟨layout, _, hty, hmask, hdc, hmsg'⟩ :=
+    built_message_is_attached_highload H sign hsl sk ids op seqno vu rnd msgs hn hm self hh _ body msg hbody hmsg
+  subst hmsg'
+  exact verify_rejects_other_key_attached H hlen sign verify pub I hsl sk .highloadV2R2 (by decide) layout hty hmask hdc self hh code data
+    withInit hdep pk' hpk' hne
+
+/-- **No changed bit.** Take the signature the wallet made for the signed cell `c` and attach it to ANY other tree of
+ordinary cells `c'` — one that differs from `c` in a bit, in the number of refs, or in any bit of any cell at any depth
+below it: the envelope is REJECTED under the wallet's own key, for every version (signature in front or in the last 512
+bits; highload's dictionary included: `c`, `c'` are arbitrary trees). Through `Cell.hashO_tree_inj` (collision-freedom on
+the representations of the cells of the two trees), `SigUnforgeable` and `SigBinds`. -/
+theorem verify_rejects_changed_body (hlen : ∀ x, (H x).length = 32) (sign : List UInt8 → List UInt8 → List UInt8)
+    (verify : List UInt8 → List UInt8 → List UInt8 → Bool) (pub : List UInt8 → List UInt8) (I : Sig.Ideal sign verify pub)
+    (hsl : ∀ sk m, (sign sk m).length = 64) (sk : List UInt8) (hpk : (pub sk).length = 32)
+    (v : Version) (hv : v.family ≠ .v1v2) (c c' : Cell) (hw : c.wfOrd = true) (hw' : c'.wfOrd = true)
+    (cf : CollisionFree H (Cell.reprs H c ++ Cell.reprs H c')) (hne : c' ≠ c) (hdc' : c'.depthO ≤ maxDepth)
+    (self : Address) (hh : self.hash.length = 32) (code data : Cell) (withInit : Bool)
+    (hdep : (envelope self (attached v (sign sk (c.hashO H)) c') (if withInit then some (stateInitCell code data) else none)).depthO ≤ maxDepth) :
+    verifySignature H verify v
+      (envelope self (attached v (sign sk (c.hashO H)) c') (if withInit then some (stateInitCell code data) else none)) (pub sk) = .ok false := by
+  have hty' : c'.ty = 0 ∧ c'.mask = 0 := by
+    cases c'; simp only [Cell.wfOrd, Bool.and_eq_true, beq_iff_eq] at hw'; exact ⟨hw'.1.1.1.1, hw'.1.1.1.2⟩
+  rw [verifySignature_envelope H verify v hv _ (hsl _ _) c' hty'.1 hty'.2 hdc' self hh code data withInit hdep (pub sk) hpk]
+  cases hvf : verify (pub sk) (c'.hashO H) (sign sk (c.hashO H)) with
+  | false => rfl
+  | true =>
+    have hd : (c.hashO H).length = 32 := by rw [Cell.hashO_eq_H_reprO]; exact hlen _
+    have hd' : (c'.hashO H).length = 32 := by rw [Cell.hashO_eq_H_reprO]; exact hlen _
+    have heq := (I.verify_sound sk (pub sk) _ _ hd hd' hvf).2
+    exact absurd (Cell.hashO_inj_of_collisionFree H hlen c c' hw hw' cf heq.symm).symm hne
+
+/-- **No changed bit**, on the message the wallet builds (v3, v4, v5r1, v5 beta): the built message is the envelope
+around `attached v sig layout`; replacing the signed part by any other tree of ordinary cells while keeping the
+signature gives a message that `VerifySignature` rejects under the wallet's key. (Highload: the same with
+`built_message_is_attached_highload`.) -/
+theorem built_message_rejects_changed_body (hlen : ∀ x, (H x).length = 32) (sign : List UInt8 → List UInt8 → List UInt8)
+    (verify : List UInt8 → List UInt8 → List UInt8 → Bool) (pub : List UInt8 → List UInt8) (I : Sig.Ideal sign verify pub)
+    (hsl : ∀ sk m, (sign sk m).length = 64) (sk : List UInt8) (hpk : (pub sk).length = 32)
+    (v : Version) (hf : v.family = .v3 ∨ v.family = .v4 ∨ v.family = .v5r1 ∨ v.family = .v5beta)
+    (ids : BodyIds) (op seqno vu rnd : Nat) (msgs : List RawMsg) (hn : (v.family = .v3 ∨ v.family = .v4) → msgs.length ≤ 4)
+    (self : Address) (hh : self.hash.length = 32) (code data : Cell) (withInit : Bool) (body msg : Cell)
+    (hbody : createSignedBody H sign sk v ids op seqno vu rnd msgs = .ok body)
+    (hmsg : extMessage self body (if withInit then some (stateInitCell code data) else none) = .ok msg)
+    (hdepL : (signedLayout v ids op seqno vu msgs).depthO ≤ maxDepth)
+    (hw : (signedLayout v ids op seqno vu msgs).wfOrd = true)
+    (c' : Cell) (hw' : c'.wfOrd = true) (hne : c' ≠ signedLayout v ids op seqno vu msgs) (hdc' : c'.depthO ≤ maxDepth)
+    (cf : CollisionFree H (Cell.reprs H (signedLayout v ids op seqno vu msgs) ++ Cell.reprs H c'))
+    (hdep : (envelope self (attached v (sign sk ((signedLayout v ids op seqno vu msgs).hashO H)) c')
+      (if withInit then some (stateInitCell code data) else none)).depthO ≤ maxDepth) :
+    msg = envelope self (attached v (sign sk ((signedLayout v ids op seqno vu msgs).hashO H)) (signedLayout v ids op seqno vu msgs))
+        (if withInit then some (stateInitCell code data) else none)
+    ∧ verifySignature H verify v (envelope self (attached v (sign sk ((signedLayout v ids op seqno vu msgs).hashO H)) c')
+        (if withInit then some (stateInitCell code data) else none)) (pub sk) = .ok false := by
+  have hv : v.family ≠ .v1v2 := by rcases hf with h | h | h | h <;> simp [h]
+  exact ⟨(built_message_is_attached H sign hsl sk v hf ids op seqno vu rnd msgs hn self hh _ body msg hbody hmsg hdepL).1,
+    verify_rejects_changed_body H hlen sign verify pub I hsl sk hpk v hv _ c' hw hw' cf hne hdc' self hh code data withInit hdep⟩
 
 /-! ### decoding returns what was requested -/
 
@@ -398,6 +619,21 @@ theorem too_many_refused (loop : Nat → Nat → List Poll → Bool) (v : Versio
 
 /-! ### defects repaired, as negations about the code before the repair -/
 
+/-- Both sides of the boundary: a batch of EXACTLY the version's maximum (4 for v3/v4, 254 for v5 beta and highload,
+255 for v5r1) — and every smaller one — passes the guard and is sent (one message, to the wallet's own address); one
+more is refused with nothing sent. -/
+theorem limit_boundary (loop : Nat → Nat → List Poll → Bool) (v : Version) (hv : v.family ≠ .v1v2) (self : Address) (seqno : Nat)
+    (init : Bool) (n : Nat) (sc : Script) (hs : sc.sendErr = false) :
+    (n ≤ maxMessages v → (rawSendV2 loop v self seqno init n sc 0).outcome = .ok () ∧
+        (rawSendV2 loop v self seqno init n sc 0).sent =
+          some { destWc := toI8 self.workchain, destHash := self.hash, init := init, seqno := seqno })
+    ∧ (rawSendV2 loop v self seqno init (maxMessages v + 1) sc 0).sent = none
+    ∧ (maxMessages v = match v.family with | .v5r1 => 255 | .v5beta | .highload => 254 | _ => 4) := by
+  refine ⟨fun hn => ?_, by simp [rawSendV2], by cases v <;> rfl⟩
+  unfold rawSendV2
+  rw [if_neg (by omega)]
+  cases hf : v.family <;> simp_all
+
 /-- Before the repair a highload message with no transfers could not be decoded by the library's own decoder: the
 payload was `1 ^<empty cell>`, and the dictionary reader fails on the empty cell. -/
 theorem highload_empty_undecodable_before_fix :
@@ -411,6 +647,71 @@ theorem v5beta_unverifiable_before_fix (verify : List UInt8 → List UInt8 → L
     verifySignatureV0 H verify .v5beta c pk = .err "wallet version is not supported" := by
   simp [verifySignatureV0]
 
+/-! ### outgoing messages and the state init they carry -/
+
+/-- `ToInternal` + marshalling of a requested message (32-byte address, `uint64` amount) never overflows a cell and
+returns the written-out layout: the state init is attached, by reference, exactly when code AND data are given. -/
+theorem internal_message_layout (m : OutMsg) (hh : m.dest.hash.length = 32) (ha : m.amount < 2 ^ 64) :
+    internalMsg m = .ok (internalLayout m) ∧ (internalLayout m).refs.length = m.init.toList.length + m.body.toList.length := by
+  refine ⟨internalMsg_ok m hh ha, ?_⟩
+  simp [internalLayout, Cell.ordinary, Cell.refs]
+  cases m.body <;> simp
+
+/-- Requested vs. extracted: the message built for a request with code `c` and data `d` is read back (by the
+`tlb.Message` decoder) with a state init whose code is `c` and whose data is `d` — BOTH present —, with no library, the
+referenced cell being exactly `StateInit{code, data}`; bounce flag, amount and destination come back as requested. -/
+theorem carried_init_is_requested (m : OutMsg) (c d : Cell) (hc : m.code = some c) (hd : m.data = some d)
+    (hh : m.dest.hash.length = 32) (ha : m.amount < 2 ^ 64) (hdep : (internalLayout m).depthO ≤ maxDepth) :
+    ∃ x, decodeInternal (internalLayout m) = .ok x ∧ x.hasInit = true ∧ x.init.cell = some (stateInitCell c d) ∧
+      x.init.code = some c ∧ x.init.data = some d ∧ x.bounce = m.bounce ∧ x.amount = m.amount ∧
+      x.dest = some (bitsToInt (intToBits 8 (toI8 m.dest.workchain)), bytesToBits m.dest.hash) := by
+  have hi : m.init = some (stateInitCell c d) := by simp [OutMsg.init, hc, hd]
+  refine ⟨_, decodeInternal_layout m hh ha hdep, ?_⟩
+  simp [OutMsg.initRead, hi, hc, hd]
+
+/-- Without both code and data no state init is sent (and none is read back). -/
+theorem no_init_without_code_and_data (m : OutMsg) (h : m.code = none ∨ m.data = none)
+    (hh : m.dest.hash.length = 32) (ha : m.amount < 2 ^ 64) (hdep : (internalLayout m).depthO ≤ maxDepth) :
+    ∃ x, decodeInternal (internalLayout m) = .ok x ∧ x.hasInit = false ∧ x.init.code = none ∧ x.init.data = none := by
+  have hi : m.init = none := by
+    unfold OutMsg.init
+    rcases h with h | h
+    · simp [h]
+    · cases m.code <;> simp [h]
+  refine ⟨_, decodeInternal_layout m hh ha hdep, ?_⟩
+  simp [OutMsg.initRead, hi]
+
+/-- `ContractDeploy`: the message is addressed to the hash of the state init it CARRIES — the destination read back
+from the built message is the representation hash of the state-init cell read back from the same message, and that
+state init holds the requested code and data. -/
+theorem deploy_address_is_carried_init_hash (hlen : ∀ x, (H x).length = 32) (wc : Int) (c d : Cell) (body : Option Cell) (amount : Nat)
+    (ha : amount < 2 ^ 64) (m : OutMsg) (hm : contractDeploy H wc (some c) (some d) body amount = .ok m)
+    (hdep : (internalLayout m).depthO ≤ maxDepth) :
+    internalMsg m = .ok (internalLayout m) ∧ m.mode = 3 ∧
+    ∃ x si, decodeInternal (internalLayout m) = .ok x ∧ x.init.cell = some si ∧ x.init.code = some c ∧ x.init.data = some d ∧
+      si.hashO? H = .ok m.dest.hash ∧ x.dest = some (bitsToInt (intToBits 8 (toI8 wc)), bytesToBits m.dest.hash) := by
+  unfold contractDeploy at hm
+  simp only [bind] at hm
+  obtain ⟨h, hh, hm⟩ := Outcome.bind_eq_ok.mp hm
+  simp only [pure, Outcome.ok.injEq] at hm
+  subst hm
+  have hl : h.length = 32 := by
+    unfold Cell.hashO? at hh
+    split at hh
+    · simp only [Outcome.ok.injEq] at hh
+      rw [← hh]; simp [stateInitCell, Cell.ordinary, Cell.hashO, hlen]
+    · simp at hh
+  obtain ⟨x, hx, _, hcell, hcode, hdata, _, _, hdest⟩ :=
+    carried_init_is_requested ⟨true, ⟨wc, h⟩, amount, body, some c, some d, 3⟩ c d rfl rfl hl ha hdep
+  exact ⟨internalMsg_ok _ hl ha, rfl, x, _, hx, hcell, hcode, hdata, hh, hdest⟩
+
+/-- Only one of code / data: `ContractDeploy` refuses. -/
+theorem deploy_needs_code_and_data (wc : Int) (code data body : Option Cell) (amount : Nat) (h : code = none ∨ data = none) :
+    contractDeploy H wc code data body amount = .err "code and data must be set" := by
+  rcases h with h | h
+  · simp [contractDeploy, h]
+  · cases code <;> simp [contractDeploy, h]
+
 /-! ### the hypotheses are satisfiable -/
 
 /-- non-vacuity of `SigCorrect` and the length premises: the toy scheme `pub = id`, `sign sk m = (sk ++ m)` padded or
@@ -421,9 +722,65 @@ example : SigCorrect (fun sk m => (sk ++ m ++ List.replicate 64 0).take 64) (fun
   · intro sk m; simp
   · intro sk m; simp; omega
 
+/-- non-vacuity of the negative clauses: the toy ideal scheme (`Sig.toy_ideal`: correct, unforgeable, binding, 64-byte
+signatures, 32-byte keys), the "hash" `pad32` (32-byte outputs) which is collision-free on the representations of two
+one-bit cells that differ in that bit, both trees of ordinary cells -/
+example : Sig.Ideal Sig.toySign Sig.toyVerify Sig.toyPub ∧ (∀ sk m, (Sig.toySign sk m).length = 64) ∧
+    (∀ x, (Sig.pad32 x).length = 32) ∧
+    (Cell.ordinary [true] []).wfOrd = true ∧ (Cell.ordinary [false] []).wfOrd = true ∧
+    Cell.ordinary [false] [] ≠ Cell.ordinary [true] [] ∧
+    CollisionFree Sig.pad32 (Cell.reprs Sig.pad32 (Cell.ordinary [true] []) ++ Cell.reprs Sig.pad32 (Cell.ordinary [false] [])) := by
+  refine ⟨Sig.toy_ideal.1, Sig.toy_ideal.2.1, Sig.pad32_length, by decide, by decide, by simp [Cell.ordinary], ?_⟩
+  intro x hx y hy h
+  simp only [Cell.reprs, Cell.ordinary, Cell.reprsList, List.append_nil, List.cons_append, List.nil_append, List.mem_cons,
+    List.not_mem_nil, or_false] at hx hy
+  rcases hx with rfl | rfl <;> rcases hy with rfl | rfl
+  · rfl
+  · exfalso; revert h
+    simp [Sig.pad32, reprNoRefs, toppedUp, addTag, bitsToBytes, d1, d2, bitsToNat, Cell.depthsO, Cell.hashesO]
+  · exfalso; revert h
+    simp [Sig.pad32, reprNoRefs, toppedUp, addTag, bitsToBytes, d1, d2, bitsToNat, Cell.depthsO, Cell.hashesO]
+  · rfl
+
+/-- the accept-all verifier, which satisfies `SigCorrect`, is excluded by the hypotheses of the negative clauses -/
+example (sign : List UInt8 → List UInt8 → List UInt8) (pub : List UInt8 → List UInt8) (hsl : ∀ sk m, (sign sk m).length = 64) :
+    SigCorrect sign (fun _ _ _ => true) pub ∧ ¬ Sig.Ideal sign (fun _ _ _ => true) pub :=
+  ⟨fun _ _ => rfl, fun I => Sig.accept_all_violates sign pub hsl I.unforgeable⟩
+
 /-- non-vacuity of `decode_build`'s premises: a v4r2 wallet, two messages -/
 example : (Version.v4r2).family = .v4 ∧ ({ subWallet := 698983191 } : BodyIds).WF ∧
     ([⟨3, .ordinary [true] []⟩, ⟨128, .ordinary [] []⟩] : List RawMsg).length ≤ 4 := by
   refine ⟨rfl, by unfold BodyIds.WF; decide, by decide⟩
+
+/-- non-vacuity of `deploy_address_is_carried_init_hash`'s premises: a deploy with a toy 32-byte hash -/
+example : ∃ m, contractDeploy (fun _ => List.replicate 32 0) 0 (some (.ordinary [true] [])) (some (.ordinary [] [])) none 5 = .ok m ∧
+    (internalLayout m).depthO ≤ maxDepth ∧ m.dest.hash.length = 32 := by
+  refine ⟨_, rfl, by decide, by decide⟩
+/-! ### the highload query id and the default send mode: regenerated Go code against the model -/
+
+/-- tie (X4, regenerated from wallet/wallet_highload_v2.go): the Go expression
+`uint64(msgConfig.ValidUntil.UTC().Unix()<<32) + uint64(rand.Uint32())` of `createSignedMsgBodyCell` (64-bit shift and
+wrapping add on `BitVec`, `Gen.WalletInts.highloadQueryID`) is the value
+`(validUntil * 4294967296 + rnd) % 18446744073709551616` that the model's highload `bodyCell` writes on 64 bits, for
+every non-negative `int64` unix time and every `uint32` random word. -/
+theorem gen_highloadQueryID (validUntil rnd : Nat) (hv : validUntil < 2 ^ 63) (hr : rnd < 2 ^ 32) :
+    (Gen.WalletInts.highloadQueryID (BitVec.ofNat 64 validUntil) (BitVec.ofNat 32 rnd)).toNat
+      = (validUntil * 4294967296 + rnd) % 18446744073709551616 :=
+  GenTies.gen_highloadQueryID validUntil rnd hv hr
+
+/-- tie (X4, regenerated from wallet/wallet_highload_v2.go): for `validUntil < 2^32` (every date until 2106) the
+regenerated query id does not wrap: its high half is `validUntil` (what the parse side reads back as
+`q / 4294967296`) and its low half is the random word. -/
+theorem gen_highloadQueryID_unpack (validUntil rnd : Nat) (hv : validUntil < 2 ^ 32) (hr : rnd < 2 ^ 32) :
+    (Gen.WalletInts.highloadQueryID (BitVec.ofNat 64 validUntil) (BitVec.ofNat 32 rnd)).toNat / 4294967296
+        = validUntil ∧
+      (Gen.WalletInts.highloadQueryID (BitVec.ofNat 64 validUntil) (BitVec.ofNat 32 rnd)).toNat % 4294967296
+        = rnd :=
+  ⟨GenTies.gen_highloadQueryID_div validUntil rnd hv hr, GenTies.gen_highloadQueryID_mod validUntil rnd hv hr⟩
+
+/-- tie (X4, regenerated from wallet/models.go): the send mode returned by `SimpleTransfer.ToInternal`
+(`DefaultMessageMode`) is `3 = 1 + 2`: pay transfer fees separately (1) + ignore errors of the action phase (2). -/
+theorem gen_defaultMessageMode : Gen.WalletInts.defaultMessageMode = 3#8 :=
+  GenTies.gen_defaultMessageMode
 
 end Tongo.C14
